@@ -97,6 +97,8 @@ struct Kernel {
     wake_log: Arc<Mutex<Vec<u64>>>,
     /// harness-side shadow of the timers: id -> wake time (oracle only)
     timers: BTreeMap<u64, u64>,
+    /// the BUGGIFY layer (ops `F…`, harness/src/c20_bug.rs)
+    bug: crate::c20_bug::BugState,
 }
 
 fn csv(v: &[u64]) -> String {
@@ -117,6 +119,7 @@ impl Kernel {
             ctx: Arc::new(SimulationContext::new(0, FaultConfig::disabled())),
             wake_log: Arc::new(Mutex::new(Vec::new())),
             timers: BTreeMap::new(),
+            bug: crate::c20_bug::BugState::new(),
         }
     }
 
@@ -321,7 +324,10 @@ impl Kernel {
                 let off = ClockOffset { fixed_offset_ms: i(1), drift_ppm: i(2), drift_anchor: Timestamp::from_millis(i(3) as u64) };
                 off.apply(Timestamp::from_millis(i(4) as u64)).as_millis().to_string()
             }
-            _ => "bad-op".into(),
+            _ => {
+                let rng = match &mut self.rng { AnyRng::Sim(r) => Some(r), AnyRng::Det(_) => None };
+                self.bug.exec(&t, rng, complaints).unwrap_or_else(|| "bad-op".into())
+            }
         }
     }
 }
@@ -434,6 +440,11 @@ fn gen_script(r: &mut Rng, flavour: u64) -> Vec<String> {
                 s.push("TBY 10".into());
             }
         }
+        // the BUGGIFY layer: FaultConfig, the thread-local context, decisions, macros
+        7 => {
+            let seed = seed_value(r);
+            s = crate::c20_bug::gen_script(r, seed);
+        }
         // ClockOffset::apply
         _ => {
             for _ in 0..(3 + r.below(6)) {
@@ -507,7 +518,7 @@ fn part_a(a: &Args, out: &mut Out, budget_ops: usize) {
     while out.n_ops() < budget_ops {
         let script = if (n_scripts as usize) < corpus.len() { corpus[n_scripts as usize].clone() } else {
             flavour_cycle += 1;
-            gen_script(&mut r, flavour_cycle % 7)
+            gen_script(&mut r, flavour_cycle % 8)
         };
         n_scripts += 1;
         let mut complaints = Vec::new();
